@@ -385,7 +385,8 @@ def sem_pinned_pawn(ctx, p, gens, emissions):
         okc = len(cb) == 1 and kids(cb[0]) and nm2.s(kids(cb[0])[0]) == 'pos.pieces(%d)' % opp
         ups = [n for n in f.all_nodes() if n['k'] == 'CompoundAssignOperator' and cb and strip_casts(kids(n)[0]).get('ref', {}).get('id') == cb[0]['id']]
         okc = okc and len(ups) == 1 and ups[0].get('op') == '|=' and nm2.s(kids(ups[0])[1]) == 'square_bb(pos.enpassant_square())' and \
-            [nm2.show_cond(cnd) for cnd, t in guard_facts(f, ups[0]) if t and 'enpassant' in nm2.show_cond(cnd)] != []
+            any(nm2.atom(cnd, t)[0] == 'in' and nm2.atom(cnd, t)[1] == 'pos.enpassant_square()' and 64 not in nm2.atom(cnd, t)[2]
+                for cnd, t in guard_facts(f, ups[0]))
         ctx.ob('C01.M8.pinned-pawn-targets', 'generate_pinned_pawn_moves<%s>' % col, bool(okc),
                'a pinned pawn off its seventh rank may capture an enemy piece or onto the e.p. square (when there is one)', site=f.loc())
 
@@ -397,3 +398,115 @@ def check(ctx, p, gens, emissions, loop_source, dirs):
     sem_ep_attacker(ctx, p, gens)
     sem_pin_in_ray(ctx, p)
     sem_pinned_pawn(ctx, p, gens, emissions)
+    sem_legal_driver(ctx, p, gens)
+
+
+def sem_legal_driver(ctx, p, gens):
+    from rules.effects import single_def
+    for col, c in (('WHITE', 0), ('BLACK', 1)):
+        f = gens[('generate_legal_moves', col)]
+        nm = Norm(f, env={'side': c, '__targs__': True})
+        ownk = 6 * c + 6
+        # the king whose safety everything is computed for is the mover's
+        ks = [n for n in f.all_nodes() if n['k'] == 'VarDecl' and n.get('name') == 'king_sq']
+        if len(ks) != 1 or not kids(ks[0]):
+            raise AnalysisBroken('C01.M8.own-king: king_sq of generate_legal_moves not found')
+        got = nm.s(kids(ks[0])[0])
+        m = re.fullmatch(r'pos\.piece_position\((\d+),0\)', got)
+        if not m:
+            raise AnalysisBroken('C01.M8.own-king: king_sq is defined as `%s`' % got)
+        ctx.ob('C01.M8.own-king', 'generate_legal_moves<%s>' % col, int(m.group(1)) == ownk,
+               'king moves, check evasions and castling are generated for the mover\'s own king (piece %s, expected %d)' % (m.group(1), ownk),
+               site=f.loc(ks[0]))
+        # the pin list is walked from the start handed to generate_pins up to the end it returned
+        calls = [n for n, cfid, name in f.calls() if name == 'engine::generate_pinned_piece_moves']
+        gp = [n for n, cfid, name in f.calls() if name == 'engine::generate_pins']
+        ok = len(calls) == 1 and len(gp) == 1
+        why = ''
+        if ok:
+            loops = [a for a in f.ancestors(calls[0]) if a['k'] == 'ForStmt']
+            ok = len(loops) == 1
+            if ok:
+                lp = loops[0]
+                init, _cv, cond, inc, body = lp['ch']
+                nk = Norm(f, inline=False)
+                iv = [x for x in walk(init) if x['k'] == 'VarDecl'] if init else []
+                start = nk.s(kids(gp[0])[2])
+                endv = None
+                par = f.parent(gp[0])
+                while par is not None and par['k'] in ('ImplicitCastExpr', 'ExprWithCleanups'):
+                    par = f.parent(par)
+                if par is not None and par['k'] == 'VarDecl':
+                    endv = par['name']
+                c_ok = cond is not None and nk.conj(cond) in (frozenset({('ne',) + tuple(sorted([iv[0]['name'] if iv else '?', endv or '?']))}),)
+                i_ok = len(iv) == 1 and kids(iv[0]) and nk.s(kids(iv[0])[0]) == start
+                s_ = strip_casts(inc) if inc else None
+                inc_ok = s_ is not None and s_['k'] == 'UnaryOperator' and s_.get('op') == '++' and \
+                    strip_casts(kids(s_)[0]).get('ref', {}).get('id') == (iv[0]['id'] if iv else None)
+                arg_ok = iv and nk.s(kids(calls[0])[1]) in ('*(%s)' % iv[0]['name'],)
+                ok = bool(c_ok and i_ok and inc_ok and arg_ok)
+                why = 'start %s, end %s, condition %s' % (start, endv, nk.show_cond(cond) if cond is not None else None)
+        ctx.ob('C01.M8.pin-walk', 'generate_legal_moves<%s>' % col, ok,
+               'the moves of pinned pieces are generated for every entry of the pin list: from the start handed to generate_pins up '
+               'to the end it returned (%s)' % why, site=f.loc(calls[0]) if calls else f.loc())
+        # pinned pieces: knights never move, pawns go to the pinned-pawn generator, sliders only along a ray they can use
+        g = gens[('generate_pinned_piece_moves', col)]
+        pkk = p.enum('engine::PieceKind')
+        bad = None
+        for kind in ('PAWN', 'KNIGHT', 'BISHOP', 'ROOK', 'QUEEN'):
+            for allowed in (True, False):
+                ng = Norm(g, env={'side': c, '__targs__': True}, keep=('piece', 'ray', 'from'))
+                val = {'piece': pkk[kind], 'pin_piece_kind(pin)': pkk[kind], 'allowed_ray(piece,ray)': 1 if allowed else 0,
+                       'allowed_ray(pin_piece_kind(pin),pin_ray(pin))': 1 if allowed else 0,
+                       'allowed_ray(%d,ray)' % pkk[kind]: 1 if allowed else 0, 'allowed_ray(%d,pin_ray(pin))' % pkk[kind]: 1 if allowed else 0}
+                ng.val = val
+                outcome = []
+
+                def run(stmts):
+                    for st in stmts:
+                        if st.get('mac') in ('assert', 'ASSERT'):
+                            continue
+                        k = st['k']
+                        if k == 'CompoundStmt':
+                            if run(kids(st)):
+                                return True
+                        elif k == 'IfStmt':
+                            ks_ = kids(st)
+                            tv = cond_value(ng, ks_[0], val)
+                            br = ks_[1] if tv else (ks_[2] if len(ks_) > 2 else None)
+                            if br is not None and run([br]):
+                                return True
+                        elif k == 'ReturnStmt':
+                            v = strip_casts(kids(st)[0]) if kids(st) else None
+                            while v is not None and v['k'] in ('ExprWithCleanups',):
+                                v = strip_casts(kids(v)[0])
+                            if v is not None and (v.get('callee') or {}).get('n') == 'engine::generate_pinned_pawn_moves':
+                                outcome.append('pawn-generator<%s>(%s)' % (short(v['callee'].get('targs', '')), ','.join(ng.s(a) for a in kids(v)[1:4])))
+                            return True
+                        elif k in ('WhileStmt', 'ForStmt', 'DoStmt'):
+                            if st.get('mac'):
+                                pass
+                            outcome.append('scan')
+                        elif k == 'DeclStmt':
+                            for d in kids(st):
+                                if d['k'] == 'VarDecl' and kids(d) and any((x.get('callee') or {}).get('n') == 'engine::attack_in_line' for x in walk(d)):
+                                    outcome.append('line:' + ng.s(kids(d)[0]))
+                    return False
+                try:
+                    run(kids(g.body))
+                except Unknown as u:
+                    raise AnalysisBroken('C01.M8.pinned-dispatch: generate_pinned_piece_moves decides on `%s`' % u)
+                if kind == 'KNIGHT':
+                    want = []
+                elif kind == 'PAWN':
+                    want = ['pawn-generator<%s>(from,ray,pos)' % col]
+                elif not allowed:
+                    want = []
+                else:
+                    want = ['line:' + band('attack_in_line(from,ray,pos.pieces())', 'target'), 'scan']
+                if outcome != want and bad is None:
+                    bad = 'pinned %s on a ray it %s use: %s, expected %s' % (kind, 'can' if allowed else 'cannot', outcome, want)
+        ctx.ob('C01.M8.pinned-dispatch', 'generate_pinned_piece_moves<%s>' % col, bad is None,
+               'a pinned knight has no move, a pinned pawn is handed to the pinned-pawn generator of the same colour, a pinned slider '
+               'moves along the pin line within the targets only when it can move on that line%s' % ('' if bad is None else ' — ' + bad),
+               site=g.loc())
